@@ -55,7 +55,7 @@ impl<'a, 'b: 'a> Decoder<'a, 'b> {
 
     pub(super) fn bytes(&mut self) -> DecodeResult<Bytes> {
         let bytes_len = self.bytes.len();
-        if self.offset < bytes_len {
+        if self.offset <= bytes_len {
             let start = self.offset;
             self.offset = bytes_len;
             let bytes = self.bytes.slice(start..self.offset);
